@@ -184,8 +184,11 @@ fn around(t: i128, max: i128) -> BoxedStrategy<i128> {
     .into_iter()
     .map(|x| x.clamp(0, max))
     .collect();
+    let today = case::today_days() as i128;
+    let landmarks: Vec<i128> = case::EPOCH_OFFSETS.iter().map(|o| (today - *o as i128).clamp(0, max)).collect();
     prop_oneof![
         5 => prop::sample::select(cands),
+        1 => prop::sample::select(landmarks),
         1 => (0u64..=(max as u64)).prop_map(|x| x as i128),
         1 => (0i128..60).prop_map(move |x| x.clamp(0, max)),
     ]
@@ -204,7 +207,7 @@ fn point() -> BoxedStrategy<Point> {
             snapshot_versions: sv,
             days: if r < 3 { None } else { Some(d as i64) },
             since: s as u32,
-            sqlite: r >= 95,
+            sqlite: r >= 80,
         })
         .boxed()
 }
@@ -253,7 +256,16 @@ fn grid() -> Vec<Point> {
             out.push(Point { snapshot_days: sd, snapshot_versions: sv, days: None, since: 0, sqlite: false });
         }
     }
-    out.sort_by_key(|p| (p.snapshot_versions, p.snapshot_days, p.days, p.since));
+    // snapshot times on calendar landmarks (before 1970, the epoch, 10^8 s, 10^9 s), both backends
+    let today = case::today_days();
+    for o in case::EPOCH_OFFSETS {
+        for (sd, sv) in [(14i64, 100u32), (3, 2), (30000, 5)] {
+            for sqlite in [false, true] {
+                out.push(Point { snapshot_days: sd, snapshot_versions: sv, days: Some(today - o), since: (o.rem_euclid(3)) as u32, sqlite });
+            }
+        }
+    }
+    out.sort_by_key(|p| (p.snapshot_versions, p.snapshot_days, p.days, p.since, p.sqlite));
     out.dedup();
     out
 }
